@@ -14,6 +14,11 @@
 //     RemoveTransactions / ID / Missing / Complete and the codec are transcribed; TLC proves Complete returns the
 //     original block iff everything omitted was offered and otherwise exactly the missing hashes, for every block shape
 //     <= 4 transactions x omitted set x pool. Every case runs on real blocks (chain blocks and synthetic ones).
+//     A block is a SEQUENCE: the model enumerates every pattern of equal members (the same transaction at several
+//     positions, v1 and v2), outlines are per-position objects, pools are multisets, and an incomplete outline is
+//     completed by a second call. Patterns with repeats run on valid blocks derived from the chain blocks (the
+//     repeated transactions carry arbitrary data only; real ValidateBlock accepts each block used) and on synthetic
+//     blocks that repeat transactions with inputs, proofs and fees.
 package main
 
 import (
@@ -55,12 +60,13 @@ type stats struct {
 	proofsOut int // outline codec round trips carrying v2 transactions with proofs
 	seenBlk   map[types.BlockID]bool
 	repeated  int
-	maxLeaves uint64 // largest accumulator a chain block was built on
+	maxLeaves uint64         // largest accumulator a chain block was built on
+	rep       map[string]int // blocks with repeated transactions: feature counters "<source>:<feature>"
 }
 
 func newStats() *stats {
 	return &stats{sets: map[string]int{}, feat: map[string]int{}, kinds: map[string]int{}, classes: map[string]int{},
-		outcomes: map[string]int{}, shapes: map[string]int{}, sampled: map[string]bool{}, seenBlk: map[types.BlockID]bool{}}
+		outcomes: map[string]int{}, shapes: map[string]int{}, sampled: map[string]bool{}, seenBlk: map[types.BlockID]bool{}, rep: map[string]int{}}
 }
 
 // takeCorrupt is true exactly once.
@@ -234,13 +240,13 @@ func blockSalt(b types.Block) int64 {
 	return int64(binary.LittleEndian.Uint64(id[:8]) >> 1)
 }
 
-// runOutlines runs up to limit TLC outline cases of the block's shape on it (all of them when limit <= 0).
-func runOutlines(c *vlib.Ctx, st *stats, rb *realBlock, cases map[[2]int][]*outlineCase, limit int, seed int64) {
+// runOutlines runs up to limit of the TLC outline cases in list (those of the block's shape, or of its pattern of
+// repeated transactions) on it (all of them when limit <= 0).
+func runOutlines(c *vlib.Ctx, st *stats, rb *realBlock, list []*outlineCase, limit int, seed int64) {
 	if rb.b.V2 == nil {
 		return
 	}
 	shape := [2]int{len(rb.b.Transactions), len(rb.b.V2Transactions())}
-	list := cases[shape]
 	if len(list) == 0 {
 		return
 	}
@@ -261,9 +267,13 @@ func runOutlines(c *vlib.Ctx, st *stats, rb *realBlock, cases map[[2]int][]*outl
 	}
 	local := map[string]int{}
 	outc := map[string]int{}
+	repf := map[string]int{}
 	codecProofs := 0
 	for _, i := range idx {
 		oc := list[i]
+		if rb.rep {
+			noteRepeated(repf, rb, oc)
+		}
 		variant := r.Intn(4)
 		use := *oc
 		switch corrupt {
@@ -295,9 +305,16 @@ func runOutlines(c *vlib.Ctx, st *stats, rb *realBlock, cases map[[2]int][]*outl
 			for k, v := range rb.replay {
 				payload[k] = v
 			}
-			c.Violation("outline/"+fd.key, fmt.Sprintf("%s block with %d v1 + %d v2 transactions: %s", rb.src, shape[0], shape[1], fd.what), payload)
+			what := fmt.Sprintf("%s block with %d v1 + %d v2 transactions", rb.src, shape[0], shape[1])
+			if rb.rep && rb.next != nil {
+				what = fmt.Sprintf("valid block (derived from a chain block, accepted by ValidateBlock) carrying the same transaction at several positions, %d v1 + %d v2 transactions", shape[0], shape[1])
+			} else if rb.rep {
+				what += ", the same transaction at several positions"
+			}
+			c.Violation("outline/"+fd.key, what+": "+fd.what, payload)
 		}
-		if st.sampleOK("outline-"+rb.src, !oc.Complete && len(oc.Missing) > 0 && shape[0] > 0 && shape[1] > 0) {
+		if st.sampleOK("outline-repeated-"+rb.src, rb.rep && strings.HasSuffix(oc.Class, "/repeated-omitted") && !oc.Complete && len(oc.Missing) > 1) ||
+			st.sampleOK("outline-"+rb.src, !rb.rep && !oc.Complete && len(oc.Missing) > 0 && shape[0] > 0 && shape[1] > 0) {
 			c.Sample(map[string]any{"part": "outline", "block": rb.src, "case": json.RawMessage(oc.raw)})
 		}
 	}
@@ -309,9 +326,117 @@ func runOutlines(c *vlib.Ctx, st *stats, rb *realBlock, cases map[[2]int][]*outl
 	for k, v := range outc {
 		st.outcomes[k] += v
 	}
-	st.shapes[fmt.Sprintf("%s:%dv1+%dv2", rb.src, shape[0], shape[1])]++
+	if rb.rep {
+		st.shapes[fmt.Sprintf("%s:%dv1+%dv2 with repeats", rb.src, shape[0], shape[1])]++
+	} else {
+		st.shapes[fmt.Sprintf("%s:%dv1+%dv2", rb.src, shape[0], shape[1])]++
+	}
+	for k, v := range repf {
+		st.rep[k] += v
+	}
 	st.proofsOut += codecProofs
 	st.mu.Unlock()
+}
+
+// noteRepeated counts which features of repeated transactions one (block, case) pair exercises.
+func noteRepeated(m map[string]int, rb *realBlock, oc *outlineCase) {
+	k1 := len(rb.b.Transactions)
+	cnt, om := map[int]int{}, map[int]int{}
+	for _, id := range oc.Ids {
+		cnt[id]++
+	}
+	for _, pos := range oc.Omit {
+		om[oc.Ids[pos-1]]++
+	}
+	twice, mixed, full := false, false, false
+	for id, n := range cnt {
+		if n < 2 {
+			continue
+		}
+		ver := "v2"
+		for j, x := range oc.Ids {
+			if x == id && j < k1 {
+				ver = "v1"
+			}
+		}
+		m[rb.src+":repeated-"+ver+"-transaction"]++
+		switch {
+		case om[id] >= 2:
+			twice = true
+			if om[id] < n {
+				mixed = true
+			}
+		case om[id] == 1:
+			mixed = true
+		default:
+			full = true
+		}
+	}
+	b := func(k string, v bool) {
+		if v {
+			m[rb.src+":"+k]++
+		}
+	}
+	b("omitted-at-several-positions", twice)
+	b("omitted-at-several-positions/resolved-by-one-call", twice && oc.Complete)
+	b("omitted-at-several-positions/resolved-by-the-second-call", twice && !oc.Complete)
+	b("in-full-at-one-position-and-as-hash-at-another", mixed)
+	b("repeated-in-full-only", full && !twice && !mixed)
+	dupPool := false
+	seen := map[int]bool{}
+	for _, id := range append(append([]int(nil), oc.Pool1...), oc.Pool2...) {
+		if seen[id] && cnt[id] >= 2 {
+			dupPool = true
+		}
+		seen[id] = true
+	}
+	b("pool-holds-a-repeated-transaction-several-times", dupPool)
+	b("second-call", !oc.Complete)
+}
+
+// runRepeated derives nPat blocks with repeated transactions from a chain block (patterns drawn from the model's,
+// see repeatedBlock), round-trips each through the block wire form and runs perPat outline cases of its pattern.
+func runRepeated(c *vlib.Ctx, st *stats, base *realBlock, cases *outlineCases, nPat, perPat int) {
+	if base.b.V2 == nil || len(cases.patterns) == 0 {
+		return
+	}
+	r := rand.New(rand.NewSource(c.Seed ^ blockSalt(base.b) ^ 0x5eed))
+	var pool []pattern
+	for _, p := range cases.patterns {
+		if p.k1 == 0 || v1Allowed(base.cs) {
+			pool = append(pool, p)
+		}
+	}
+	for n := 0; n < nPat && len(pool) > 0; n++ {
+		p := pool[r.Intn(len(pool))]
+		rb, err := repeatedBlock(base, p.k1, p.ids)
+		if err != nil {
+			c.Infra("%v", err)
+			continue
+		}
+		seen := map[string]bool{}
+		for _, fd := range checkBlockRoundTrip(rb) {
+			if seen[fd.key] {
+				continue
+			}
+			seen[fd.key] = true
+			payload := map[string]any{"part": "block"}
+			for k, v := range rb.replay {
+				payload[k] = v
+			}
+			c.Violation("block/"+fd.key, fmt.Sprintf("valid block at height %d carrying the same transaction at several positions (%d v1 + %d v2, by position %v): %s", rb.cs.Index.Height+1, p.k1, p.k2, p.ids, fd.what), payload)
+		}
+		st.mu.Lock()
+		st.rep["chain:valid-blocks"]++
+		if rb.baseTxs > 0 {
+			st.rep["chain:valid-blocks-carrying-chain-transactions"]++
+		}
+		if p.k1 > 0 && p.k2 > 0 {
+			st.rep["chain:valid-blocks-mixing-v1-and-v2"]++
+		}
+		st.mu.Unlock()
+		runOutlines(c, st, rb, cases.byPattern[p.key], perPat, c.Seed)
+	}
 }
 
 // synthBlock builds a block (not a valid one: outlines and the wire form do not ask for validity) from the
@@ -360,7 +485,7 @@ func synthBlock(cs consensus.State, src synthSrc, k1 int) (*realBlock, error) {
 // ---------------------------------------------------------------------------
 // chain blocks
 
-func checkChainBlock(c *vlib.Ctx, st *stats, rb *realBlock, cases map[[2]int][]*outlineCase, limit int) {
+func checkChainBlock(c *vlib.Ctx, st *stats, rb *realBlock, cases *outlineCases, limit int) {
 	b := rb.b
 	if b.V2 == nil {
 		st.mu.Lock()
@@ -407,7 +532,8 @@ func checkChainBlock(c *vlib.Ctx, st *stats, rb *realBlock, cases map[[2]int][]*
 		c.Sample(map[string]any{"part": "block", "height": rb.cs.Index.Height + 1, "v2_transactions": len(b.V2Transactions()),
 			"features": "duplicate leaves + storage-proof chain index", "accumulator_leaves": rb.cs.Elements.NumLeaves})
 	}
-	runOutlines(c, st, rb, cases, limit, c.Seed)
+	runOutlines(c, st, rb, cases.byShape[[2]int{len(b.Transactions), len(b.V2Transactions())}], limit, c.Seed)
+	runRepeated(c, st, rb, cases, c.Pick(1, 2), c.Pick(6, 12))
 }
 
 type chainRun struct {
@@ -438,7 +564,8 @@ func main() {
 	}
 	c.Rule("(1) Multiproof.tla cases: every forest of n leaves and every multiplicity vector m in {0,1,2}^n \\ {0} (quick: n<=7 all, n=8..10 at most one duplicate; thorough: n<=10 all, n=11..12 at most one duplicate, n=13..15 no duplicates), laid out by the specification as 1..3 v2 transactions (siacoin/siafund inputs, revision and resolution parents, storage-proof chain indices, ephemeral parents); TLC checks compute=definition, size, inference, expand on each and prints the expected multiproof; the harness builds real elements, evaluates the terms with real leaf hashes, and compares the real encoder's bytes / decoder's proofs. A case is non-trivial iff some referenced leaf has a non-empty proof. " +
 		"(2) every accepted block of TLC-simulated Ledger.tla behaviours (v2-only and mixed-era networks; payments, siafunds, v2 formation/revision/proof/expiry/renewal, ephemeral spends): wire round trip, ID, commitment, proofs, ValidateBlock, ApplyBlock state. " +
-		"(3) Outline.tla cases (block shape k1+k2<=4 x omitted set x offered subset x extras x order) on those chain blocks (a seeded sample of cases per block in quick) and on synthetic blocks made of the transactions of (1) (all cases of the shape). evaluations = TLC multiproof cases + chain blocks round-tripped + (block, outline case) pairs; distinct_nontrivial = non-trivial multiproof sets (TLC cases and chain blocks) + outline pairs with at least one omitted transaction.")
+		"(3) Outline.tla cases (block of k1+k2<=4 (thorough 5) transactions x pattern of equal members (the same transaction at several positions) x omitted position set x offered subset x extras x order; an incomplete outline gets a second call that is offered the rest) on those chain blocks (a seeded sample of cases per block in quick), on VALID blocks with repeated transactions derived from every chain block (repeated members carry arbitrary data only; real ValidateBlock accepts each block used; also round-tripped through the block wire form) and on synthetic blocks made of the transactions of (1), distinct (all cases of the shape in thorough) and repeated (a seeded sample of the pattern's cases). evaluations = TLC multiproof cases + chain blocks round-tripped + (block, outline case) pairs; distinct_nontrivial = non-trivial multiproof sets (TLC cases and chain blocks) + outline pairs with at least one omitted transaction.")
+	c.Assume("a transaction that occurs several times in a VALID block spends nothing; the harness uses arbitrary-data-only transactions for them and keeps only blocks the real ValidateBlock accepts")
 	c.Assume("hash terms are injective: results are relative to collision resistance of blake2b")
 	c.Assume("types/verif_export.go, gateway/verif_export.go, consensus/verif_export.go (build tag verif) only forward to the unexported originals")
 	c.Assume("plain field encoding of transactions (V2Transaction.EncodeTo/DecodeFrom with individual proofs) is property C11's topic; it is used here to compare transactions")
@@ -447,15 +574,20 @@ func main() {
 	t0 := time.Now()
 
 	// --- outline cases (TLC) ----------------------------------------------------------------
-	ores := c.MustTLC(vlib.TLCOpts{SpecDirs: []string{"net"}, Module: "Outline", Config: "Outline.cfg", Workers: 4, Timeout: 10 * time.Minute})
-	ocases, nOutline, err := parseOutlineCases(ores.Lines)
+	ores := c.MustTLC(vlib.TLCOpts{SpecDirs: []string{"net"}, Module: "Outline", Config: map[bool]string{false: "Outline.cfg", true: "OutlineThorough.cfg"}[c.Thorough], Workers: 4, Timeout: 10 * time.Minute})
+	ocases, err := parseOutlineCases(ores.Lines)
 	if err != nil {
 		c.Fatal("%v", err)
 	}
+	nOutline := ocases.n
 	if ores.Distinct != int64(2*nOutline) || nOutline == 0 {
 		c.Fatal("Outline: %d distinct states but %d cases printed", ores.Distinct, nOutline)
 	}
+	if ocases.nRep == 0 || len(ocases.patterns) == 0 {
+		c.Fatal("Outline: no case with a repeated transaction printed")
+	}
 	c.Cov("outline_cases_tlc", nOutline)
+	c.Cov("outline_cases_tlc_with_repeated_transactions", map[string]any{"cases": ocases.nRep, "patterns": len(ocases.patterns), "largest_block": ocases.maxTx})
 
 	// --- multiproof cases (TLC) in the background --------------------------------------------
 	spans := []span{{1, 7, 8}, {8, 10, 1}}
@@ -534,7 +666,8 @@ func main() {
 					Txs []json.RawMessage `json:"txs"`
 				}
 				json.Unmarshal([]byte(src.raw), &cl)
-				k1 := i % (5 - len(cl.Txs))
+				maxTx := ocases.maxTx
+				k1 := i % (maxTx + 1 - len(cl.Txs))
 				rb, err := synthBlock(sim0.CS, src, k1)
 				if err != nil {
 					c.Infra("synthetic block: %v", err)
@@ -550,7 +683,38 @@ func main() {
 				st.mu.Lock()
 				st.sets["synthetic-block"]++
 				st.mu.Unlock()
-				runOutlines(c, st, rb, ocases, c.Pick(160, 0), c.Seed)
+				runOutlines(c, st, rb, ocases.byShape[[2]int{k1, len(cl.Txs)}], c.Pick(160, 0), c.Seed)
+				// the same transactions (inputs, proofs, fees) at several positions: n1 distinct v1 ones and all the
+				// v2 ones of the case, in a pattern of the model that repeats some of them
+				n1 := i % (maxTx - len(cl.Txs))
+				pats := ocases.byClasses[[2]int{n1, len(cl.Txs)}]
+				if len(pats) == 0 {
+					return
+				}
+				base, err := synthBlock(sim0.CS, src, n1)
+				if err != nil {
+					c.Infra("synthetic block: %v", err)
+					return
+				}
+				for n := 0; n < c.Pick(1, 2); n++ {
+					p := pats[(i/(maxTx-len(cl.Txs))+n*7)%len(pats)]
+					rr, err := repeatedBlock(base, p.k1, p.ids)
+					if err != nil {
+						c.Infra("%v", err)
+						return
+					}
+					for _, fd := range checkBlockRoundTrip(rr) {
+						payload := map[string]any{"part": "synthetic-block"}
+						for k, v := range rr.replay {
+							payload[k] = v
+						}
+						c.Violation("block/"+fd.key, fmt.Sprintf("synthetic block carrying the same transaction at several positions (%d v1 + %d v2, by position %v): %s", p.k1, p.k2, p.ids, fd.what), payload)
+					}
+					st.mu.Lock()
+					st.rep["synthetic:blocks"]++
+					st.mu.Unlock()
+					runOutlines(c, st, rr, ocases.byPattern[p.key], c.Pick(160, 500), c.Seed)
+				}
 			}(i, src)
 		}
 		wg.Wait()
@@ -590,7 +754,19 @@ func main() {
 			need(st.classes, src+":"+cl)
 		}
 		need(st.outcomes, src+":complete", src+":incomplete")
+		// blocks carrying the same transaction at several positions
+		for _, cl := range []string{"nothing-omitted", "exact", "superset", "permuted", "partial", "partial+extra", "empty", "unrelated-only"} {
+			need(st.classes, src+":"+cl+"/repeated")
+			if cl != "nothing-omitted" {
+				need(st.classes, src+":"+cl+"/repeated-omitted")
+			}
+		}
+		need(st.rep, src+":repeated-v1-transaction", src+":repeated-v2-transaction", src+":omitted-at-several-positions/resolved-by-one-call",
+			src+":omitted-at-several-positions/resolved-by-the-second-call", src+":in-full-at-one-position-and-as-hash-at-another",
+			src+":repeated-in-full-only", src+":pool-holds-a-repeated-transaction-several-times", src+":second-call")
 	}
+	need(st.rep, "chain:valid-blocks", "chain:valid-blocks-carrying-chain-transactions", "chain:valid-blocks-mixing-v1-and-v2", "synthetic:blocks")
+	c.Cov("outline_blocks_with_repeated_transactions", st.rep)
 	if st.mixedBlk == 0 {
 		c.Infra("vacuity: no chain block mixes v1 and v2 transactions")
 	}
@@ -607,7 +783,7 @@ func main() {
 		}
 	}
 	c.Traces(int64(total.Behaviours) + int64(nCases))
-	c.Count(int64(nCases)+int64(st.chainBlk)+st.outlineN, st.nontriv+omitted)
+	c.Count(int64(nCases)+int64(st.chainBlk)+int64(st.rep["chain:valid-blocks"])+st.outlineN, st.nontriv+omitted)
 	c.Finish()
 }
 
@@ -670,6 +846,10 @@ func replay(c *vlib.Ctx) {
 			Variant   int          `json:"variant"`
 			Params    chain.Params `json:"params"`
 			Behaviour []chain.Step `json:"behaviour"`
+			Pattern   *struct {
+				K1  int   `json:"k1"`
+				Ids []int `json:"ids"`
+			} `json:"pattern"`
 		} `json:"case"`
 	}
 	if err := json.Unmarshal(raw, &f); err != nil {
@@ -710,6 +890,12 @@ func replay(c *vlib.Ctx) {
 		}
 	default:
 		c.Fatal("replay: unknown case format")
+	}
+	if rb != nil && cs.Pattern != nil {
+		rb, err = repeatedBlock(rb, cs.Pattern.K1, cs.Pattern.Ids)
+		if err != nil {
+			c.Fatal("replay: %v", err)
+		}
 	}
 	if rb != nil {
 		if cs.Part == "outline" {
